@@ -43,6 +43,9 @@ Inductive echeck :=
 (** QutipBackendV2.__init__: evaluation times held by the wrapped emulator *)
 | CEvalV2 (rate : float) (T : Z) (default : option (list float)) (extra : list float)
           (impl : list float + Z)
+(** pulser.math.multinomial.multinomial with the uniform draws supplied
+    (boundary draws equal to a cumulative sum included) *)
+| CMultinomial (probs us : list float) (impl : list Z)
 (** SimulationResults._get_index_from_time *)
 | CIndex (t tol : float) (times : list float) (impl : Z + Z)
 (** EmulationConfig creation (1 ok / error code) and re-creation *)
@@ -86,6 +89,9 @@ Definition run_check (c : echeck) : bool :=
       | Err e, inr code => err_code e =? code
       | _, _ => false
       end
+  | CMultinomial probs us impl =>
+      sortedb PrimFloat.ltb (cumsum PrimFloat.add probs)
+      && zlist_eqb (multinomial PrimFloat.ltb PrimFloat.add probs us) impl
   | CIndex t tol times impl =>
       match index_from_time t tol times, impl with
       | Ok k, inl x => k =? x
